@@ -1,3 +1,3 @@
 SPECIFICATION TraceSpec
-CONSTANT Prop = "C17"
+CONSTANT Prop = "C10"
 INVARIANT Consumed
